@@ -130,6 +130,10 @@ struct CheckedBackend {
     file: Box<dyn StorageBackend>,
     io_failed: AtomicBool,
     closed: AtomicBool,
+    // Held shared around every call into `file` and exclusively by close(). Without it a call
+    // that has passed check_failure() on one thread could reach the backend after another thread
+    // has closed it.
+    in_use: RwLock<()>,
 }
 
 // Covers the open paths that fail before there is a Database to drop. Drop cannot report the
@@ -148,6 +152,7 @@ impl CheckedBackend {
             file,
             io_failed: AtomicBool::new(false),
             closed: AtomicBool::new(false),
+            in_use: RwLock::new(()),
         }
     }
 
@@ -166,12 +171,15 @@ impl CheckedBackend {
     fn close(&self) -> Result {
         self.closed.store(true, Ordering::Release);
         self.io_failed.store(true, Ordering::Release);
+        // Wait for calls that are already in the backend
+        let _guard = self.in_use.write().unwrap();
         self.file.close()?;
 
         Ok(())
     }
 
     fn len(&self) -> Result<u64> {
+        let _guard = self.in_use.read().unwrap();
         self.check_failure()?;
         let result = self.file.len();
         if result.is_err() {
@@ -181,6 +189,7 @@ impl CheckedBackend {
     }
 
     fn read(&self, offset: u64, out: &mut [u8]) -> Result<()> {
+        let _guard = self.in_use.read().unwrap();
         self.check_failure()?;
         let result = self.file.read(offset, out);
         if result.is_err() {
@@ -190,6 +199,7 @@ impl CheckedBackend {
     }
 
     fn set_len(&self, len: u64) -> Result<()> {
+        let _guard = self.in_use.read().unwrap();
         self.check_failure()?;
         let result = self.file.set_len(len);
         if result.is_err() {
@@ -199,6 +209,7 @@ impl CheckedBackend {
     }
 
     fn sync_data(&self) -> Result<()> {
+        let _guard = self.in_use.read().unwrap();
         self.check_failure()?;
         let result = self.file.sync_data();
         if result.is_err() {
@@ -208,6 +219,7 @@ impl CheckedBackend {
     }
 
     fn write(&self, offset: u64, data: &[u8]) -> Result<()> {
+        let _guard = self.in_use.read().unwrap();
         self.check_failure()?;
         let result = self.file.write(offset, data);
         if result.is_err() {
@@ -220,6 +232,7 @@ impl CheckedBackend {
     // optimization depends on, latching would turn every later operation into a PreviousIo error
     // over data that nothing was waiting on.
     fn write_best_effort(&self, offset: u64, data: &[u8]) -> Result<()> {
+        let _guard = self.in_use.read().unwrap();
         self.check_failure()?;
         self.file.write(offset, data).map_err(StorageError::from)
     }
